@@ -159,10 +159,12 @@ class UidOracle(Oracle):
             world.sim.oracle("uid_live")
             seen: dict[str, str] = {}
             class_types: dict[str, set] = {}
+            type_objs: dict[str, dict] = {}
             stack = [handle.ws.root]
             while stack:
                 ent = stack.pop()
                 key = ustr(ent.uid)
+                type_objs.setdefault(ustr(ent.entity_type.uid), {})[id(ent.entity_type)] = "tree"
                 what = f"{snapshot.kind_of(ent)} {ent.name!r}"
                 if snapshot.kind_of(ent) in ("group", "object"):
                     # all entities of one object or group class share a single type
@@ -180,7 +182,15 @@ class UidOracle(Oracle):
             if split:
                 cls = sorted(split)[0]
                 raise Violation("C06", "class_has_two_types", f"entities of class {cls} carry {len(split[cls])} different types: {split[cls]}", {"cls": cls})
-            # no two live types share an identifier
+            # no two live types share an identifier: neither in the registry, nor among the type objects that entities of this
+            # workspace carry (those in the tree, and those the caller still holds after their removal)
+            for (hh, _), held in sorted(world.slots.items(), key=lambda kv: kv[0]):
+                if hh == h and getattr(held, "entity_type", None) is not None:
+                    type_objs.setdefault(ustr(held.entity_type.uid), {}).setdefault(id(held.entity_type), "held")
+            twice = sorted(u for u, objs in type_objs.items() if len(objs) > 1)
+            if twice:
+                raise Violation("C06", "type_uid_shared", f"type identifier {twice[0]} is carried by {len(type_objs[twice[0]])} distinct live type objects "
+                                f"({sorted(type_objs[twice[0]].values())})", {"via": "held" if "held" in type_objs[twice[0]].values() else "tree"})
             type_ids = [ustr(t.uid) for t in handle.ws.types]
             dup = sorted({t for t in type_ids if type_ids.count(t) > 1})
             if dup:
